@@ -23,7 +23,9 @@ pub type Al = (&'static [&'static str], &'static [&'static str]);
 pub const NO_ALIAS: Al = (&[], &[]);
 /// alias sets whose effect on one word depends on that word only: a `+` romaniser conditioned on stress / length (matches some occurrences of a
 /// segment and not others), a deromaniser with its inverse, boundary removal
-pub const ALIAS_SETS: [Al; 4] = [(&[], &["V:[+str] => +@{acute}"]), (&["sh > ʃ", "A > a:[+long]"], &["ʃ > sh", "a:[+long] > A"]), (&[], &["$ > *", "V:[+long] > +@{macron}", "[+nasal] > +N"]), (&["q > k"], &["[] > +x"])];
+pub const ALIAS_SETS: [Al; 6] = [(&[], &["V:[+str] => +@{acute}"]), (&["sh > ʃ", "A > a:[+long]"], &["ʃ > sh", "a:[+long] > A"]), (&[], &["$ > *", "V:[+long] > +@{macron}", "[+nasal] > +N"]), (&["q > k"], &["[] > +x"]),
+    // a boundary romaniser with a non-empty replacement: what it does to the marks that open a word must not depend on the word's place in the line
+    (&[], &["$ > ·"]), (&[], &["$ > \\-", "a > A"])];
 fn al_index(al: Al) -> i64 { ALIAS_SETS.iter().position(|x| *x == al).map(|x| x as i64).unwrap_or(-1) }
 fn al_tag(al: Al) -> String { if al.0.is_empty() && al.1.is_empty() { String::new() } else { format!("|into {:?} from {:?}", al.0, al.1) } }
 fn run(al: Al, rules: &[RuleGroup], words: &[String]) -> Out<Result<Vec<String>, String>> {
@@ -157,7 +159,7 @@ pub fn run_check() -> i32 {
     for al in ALIAS_SETS { for rl in alias_rules { ajobs.push((al, rl)); } }
     let mut ta = Acc::default();
     par_fold(ajobs.len(), 1, Acc::default, |i, a| check_rules_al(ajobs[i].0, ajobs[i].1, a), |a| ta.merge(a));
-    r.boxes.push(json!({"box": "rule lists x word lists / lines with aliases in force (4 alias sets x 8 rule lists)", "jobs": ajobs.len(), "comparisons": ta.evals, "ok": ta.ok, "error_lists": ta.errs}));
+    r.boxes.push(json!({"box": "rule lists x word lists / lines with aliases in force (6 alias sets x 8 rule lists)", "jobs": ajobs.len(), "comparisons": ta.evals, "ok": ta.ok, "error_lists": ta.errs}));
     r.guard(ta.ok > 10_000, "alias jobs: more than 10k lists succeed");
     t.merge(ta);
     r.evaluations = t.evals; r.transitions = t.evals; r.validated = t.ok + t.errs; r.nontrivial = t.ok; r.states = t.outs;
